@@ -18,7 +18,7 @@ import sys
 import tempfile
 import threading
 
-ROOT = os.path.dirname(os.path.dirname(os.path.dirname(os.path.abspath(__file__))))
+ROOT = os.environ.get("GVERIF_REPO") or os.getcwd()   # the tree under test
 sys.path.insert(0, ROOT)
 
 import gunicorn                                     # noqa: E402
